@@ -108,18 +108,26 @@ def location(project, source, position, filename=None, debug=False):
     def user_loc(n):
         # positions come from the text with the cursor mark spliced in:
         # shift the ones to the right of the cursor back
-        loc = n.declared_at
-        if (n.filename == source.filename and loc[0] == position[0]
+        loc = getattr(n, 'declared_at', None)
+        fname = getattr(n, 'filename', None)
+        if loc is None or fname is None:
+            # builtins and compiled modules have no source position
+            return None
+        if (fname == source.filename and loc[0] == position[0]
                 and loc[1] >= position[1] + len(SOURCE_MARK)):
             loc = loc[0], loc[1] - len(SOURCE_MARK)
-        return _loc(loc, n.filename)
+        return _loc(loc, fname)
 
     locs = []
     for r in result:
         if isinstance(r, list):
-            locs.append([user_loc(n) for n in r])
+            alts = [l for l in (user_loc(n) for n in r) if l]
+            if alts:
+                locs.append(alts)
         else:
-            locs.append(user_loc(r))
+            l = user_loc(r)
+            if l:
+                locs.append(l)
 
     return locs
 
